@@ -266,6 +266,24 @@ add("C06", "X-merge-order-as-strings", "fixed",
 
 
 
+add("C04", "F-feedback-path-skew", "open",
+    "m.write(f(m.read())) where the cell enters f at different combinator depths (x + x*2 + 1): the loop is wired without delay "
+    "balancing, the short and the long path see the cell at different ticks and no latency L gives x(t+L) = f(x(t)) "
+    "(trace 0,1,1,2,4,5,9,14,20,33 for f = 3x+1); same with --no-optimize; uses at equal depth (x*2 + x*3) are right",
+    {"prog": Program((MemDecl("m", "signal-M"), S("one", "signal-O", 1),
+                      Write("m", Bin("+", Bin("+", MemRead("m"), Bin("*", MemRead("m"), Num(2))), Ref("one")), None),
+                      Decl("Signal", "r0", MemRead("m")))),
+     "opts": {}, "vals": [{"one": 1}], "optimize": True, "sched": {"seed": 0}}, trigger="feedback-path-skew")
+
+
+
+add("C01", "X-inline-steals-comparison", "fixed",
+    "Signal cq = in3 <= -12; lq.enable = cq; Signal wq = cq + 1; - the comparison was inlined into the lamp and removed, wq computed 0 + 1",
+    case01([Decl("Signal", "in3", Num(0)), Decl("Signal", "cq", Bin("<=", Ref("in3"), Num(-12))),
+            Decl("Entity", "lq", Place("small-lamp", Num(40), Num(40))), Assign("lq", "enable", Ref("cq")),
+            Decl("Signal", "wq", Bin("+", Ref("cq"), Num(1)))], [{"in3": -2147483647}, {"in3": 5}]), commit="2318b67")
+
+
 def main():
     import importlib
 
